@@ -75,6 +75,7 @@ type Task struct {
 	BlockOn string
 	killed  bool
 	started bool
+	sim     *Sim // the process image this task belongs to
 
 	Panic      any
 	PanicStack string
@@ -310,7 +311,7 @@ func (s *Sim) problem(p Problem) {
 // Tasks
 
 func (s *Sim) Spawn(name string, kind TaskKind, site string, fn func()) *Task {
-	t := &Task{ID: len(s.tasks), Name: name, Kind: kind, Site: site, wake: make(chan struct{}), Action: s.Action, deadline: -1}
+	t := &Task{ID: len(s.tasks), Name: name, Kind: kind, Site: site, wake: make(chan struct{}), Action: s.Action, deadline: -1, sim: s}
 	t.prio = 1000 + s.sched.Intn(1000)
 	s.tasks = append(s.tasks, t)
 	s.Stats.TasksSpawned++
